@@ -162,6 +162,8 @@ def run(ctx: Ctx) -> Result:
         # history: the same bytes were listed (as NOPs) before the fork was installed - afterwards they are listed with the fork's name
         nested_ = bytes([1, 43, 0, 2, code, 3])
         reqs.append(({**base, 'kind': FORK_KINDS[0], 'decompile_before_install': [bytes([code, 3]).hex(), nested_.hex()], 'compile': srcs_new, 'decompile': [bytes([code, 3]).hex()]}, FORK_KINDS[0]))
+        # history: parsing handlers had been registered for the same name before (a prototype): the install's own handlers replace them
+        reqs.append(({**base, 'kind': FORK_KINDS[0], 'earlier_handlers': True, 'compile': srcs_new, 'decompile': [bytes([code, 3]).hex()]}, FORK_KINDS[0]))
         # history: an earlier fork at another byte had claimed the same aliases; after this install name and aliases reach THIS byte
         other = next(c for c in reversed(free) if c != code)
         reqs.append(({**base, 'kind': FORK_KINDS[0], 'earlier_installs': [{'code': other, 'name': f'OP_OLDFORK_{other}', 'aliases': base['aliases']}],
